@@ -64,7 +64,13 @@ def main():
         # run the check against the patched worktree
         outd = tempfile.mkdtemp(prefix='seedout.')
         e2 = dict(os.environ, PYPYR_REPO=wt, VERIF_OUT=outd, VERIF_DEV='1')
-        rcc, oc = sh(['./check', pid, '--tier', tier], cwd=V, env=e2, timeout=7200)
+        # a private copy of /verif: the check regenerates lean/Generated from the tree under test
+        vcopy = tempfile.mkdtemp(prefix='seedverif.', dir='/var/tmp')
+        sh(['rsync', '-a', '--exclude', '.git', '--exclude', 'seeded', '--exclude', 'replays', str(V) + '/', vcopy + '/'])
+        try:
+            rcc, oc = sh(['./check', pid, '--tier', tier], cwd=vcopy, env=e2, timeout=7200)
+        finally:
+            shutil.rmtree(vcopy, ignore_errors=True)
         lines = [ln for ln in oc.splitlines() if ln.startswith(('VIOLATION', 'KNOWN-FINDING', pid + ' ')) or 'INFRA' in ln]
         print('\n'.join(ln[:300] for ln in lines))
         replays = []
